@@ -162,7 +162,7 @@ class HashTable:
 
     def __iadd__(self, other):
         if isinstance(other, Number):
-            self._values += other
+            self._values = self._values + other
             return self
         if self._safe_mode and not self._keys.equals(other._keys):
             raise ValueError(
@@ -170,7 +170,7 @@ class HashTable:
             )
         if isinstance(self._values, Number) and not isinstance(other._values, Number):
             self._fill_values()
-        self._values += other._values
+        self._values = self._values + other._values
         return self
 
     def __array_function__(self, func, types, args, kwargs):
